@@ -150,6 +150,7 @@ type BSite struct {
 	Inner   int    `json:"inner,omitempty"`   // reenter: index (into Sites) of the site inside the callback
 	Handled bool   `json:"handled,omitempty"` // reenter: the native handles the nested error
 	Skip    bool   `json:"skip,omitempty"`    // only reachable from another site (callback body / nested argument)
+	Recurse bool   `json:"recurse,omitempty"` // reenter: the callback calls the very native that is re-entering (the native reads its args again afterwards)
 }
 
 type BFault struct {
@@ -174,6 +175,7 @@ type BPlan struct {
 	Faults      []BFault    `json:"faults,omitempty"`
 	HostCalls   []BHostCall `json:"host_calls,omitempty"`
 	OptimizeOff bool        `json:"optimize_off,omitempty"`
+	Rounds      int         `json:"rounds,omitempty"` // work() is called this many times (>= 1) through the same VM handle
 }
 
 type boundary struct{}
@@ -199,14 +201,14 @@ func (boundary) Describe() core.EngineInfo {
 		Real:       []string{"goatlang NewFunc adapters, call/callReady, mkFunc, newMethod, VM.Call/Func/Set/Get, constructors and accessors, slices.SortFunc native"},
 		Stubs:      []string{"host natives are the simulator's (they are the seam)", "SimDisk serves the script"},
 		Assumes:    []string{"an untyped constant passed to a native arrives as goatlang's untyped number: payload compared, type not", "scalars, nil and slices of scalars only", "natives that break their own declared result count are host bugs and are not injected"},
-		ProbesWant: []string{"form_1", "form_2", "form_3", "form_4", "form_5", "form_6", "ctx_stmt", "ctx_stmtret", "ctx_assign", "ctx_expr", "ctx_nested", "ctx_fnvar", "ctx_loop", "ctx_viafn", "ctx_method", "ctx_reenter", "ctx_sort", "fault_propagated", "fault_handled", "hostcall_ok", "hostcall_too_many", "spread"},
+		ProbesWant: []string{"form_1", "form_2", "form_3", "form_4", "form_5", "form_6", "ctx_stmt", "ctx_stmtret", "ctx_assign", "ctx_expr", "ctx_nested", "ctx_fnvar", "ctx_loop", "ctx_viafn", "ctx_method", "ctx_reenter", "ctx_recurse", "ctx_sort", "hostcall_swap", "round_2", "fault_propagated", "fault_handled", "hostcall_ok", "hostcall_too_many", "spread"},
 	}
 }
 
 // --- generation ----------------------------------------------------------------
 
 func (e boundary) genPlan(r *core.PRNG) *BPlan {
-	p := &BPlan{Seed: r.Uint64(), OptimizeOff: r.Chance(1, 3)}
+	p := &BPlan{Seed: r.Uint64(), OptimizeOff: r.Chance(1, 3), Rounds: 1 + r.Intn(3)}
 	nn := 2 + r.Intn(9)
 	for i := 0; i < nn; i++ {
 		n := BNative{Form: 1 + r.Intn(6)}
@@ -316,12 +318,24 @@ func (e boundary) genPlan(r *core.PRNG) *BPlan {
 			} else {
 				p.Sites[idx].Inner, p.Sites[idx].Handled = in, r.Chance(1, 2)
 			}
+		case "recurse":
+			// the native at this site re-enters the VM through a callback that calls the same native
+			in := gen([]string{"callback"}, depth+1)
+			if in < 0 || depth > 0 {
+				p.Sites[idx].Ctx = "stmt"
+			} else {
+				p.Sites[idx].Inner = in
+				p.Sites[idx].Native = p.Sites[in].Native
+				nat := p.Natives[p.Sites[in].Native]
+				args, spread := genArgs(nat, "stmt", 2)
+				p.Sites[idx].Args, p.Sites[idx].Spread = args, spread
+			}
 		}
 		return idx
 	}
 	ns := 2 + r.Intn(10)
 	for i := 0; i < ns; i++ {
-		gen([]string{"stmt", "stmtret", "assign", "assign", "expr", "nested", "fnvar", "loop", "viafn", "method", "reenter", "sort"}, 0)
+		gen([]string{"stmt", "stmtret", "assign", "assign", "expr", "nested", "fnvar", "loop", "viafn", "method", "reenter", "recurse", "sort"}, 0)
 	}
 	if r.Chance(1, 2) {
 		nf := 1 + r.Intn(2)
@@ -337,8 +351,13 @@ func (e boundary) genPlan(r *core.PRNG) *BPlan {
 			b = a
 		}
 		h := BHostCall{Fn: "id", A: a, B: b, XRets: r.Intn(b + 2), Func: r.Bool()}
+		swapA := 1 + r.Intn(4)
 		if r.Chance(1, 5) {
 			h = BHostCall{Fn: "typed", A: 5, B: 5, XRets: 5, Func: r.Bool()}
+		}
+		if r.Chance(1, 5) {
+			h = BHostCall{Fn: "swap", A: swapA}
+			a = swapA
 		}
 		for j := 0; j < h.A; j++ {
 			h.Params = append(h.Params, r.Intn(len(bPool)))
@@ -475,7 +494,7 @@ func (p *BPlan) render() string {
 		n := p.Natives[s.Native]
 		pre := fmt.Sprintf("\thost.At(%d); G = %d; ", si, si)
 		switch s.Ctx {
-		case "stmt":
+		case "stmt", "recurse":
 			ln(pre + p.callExpr(si, "", ""))
 		case "stmtret":
 			ln("\tz%d := sr%d()", si, si)
@@ -557,6 +576,8 @@ type bRun struct {
 	firedG  int            // what the script last stored in G before the fault
 	handled bool
 	reDepth int
+	inRecurse bool
+	handledNow bool // a nested error was handled during the current round
 	forms   map[string]bool
 }
 
@@ -603,6 +624,26 @@ func (run *bRun) invoke(k int, site int, args []goatlang.Value, vargs []goatlang
 			run.fail("C19/args", "wrong-native", "site %d calls native %d but native %d ran", site, s.Native, k)
 		} else if s.Ctx != "sort" {
 			run.checkArgs(site, s, nat, args, vargs, variadic)
+		}
+	}
+	if site >= 0 && site < len(run.p.Sites) && run.p.Sites[site].Ctx == "recurse" && !run.inRecurse {
+		// re-enter the VM from inside this native; the callback calls this same native again;
+		// afterwards what this invocation was given must be unchanged
+		s := run.p.Sites[site]
+		run.inRecurse = true
+		run.h.C.Inc("ctx_recurse")
+		_, err := run.h.Func(run.h.VM.Get(fmt.Sprintf("main.cb%d", s.Inner)), 1, bPool[run.p.firstPool(s.Inner)].value())
+		run.inRecurse = false
+		if err != nil {
+			panic(err)
+		}
+		run.siteInv[site]-- // checkArgs counts per call; this is the same invocation
+		before := len(run.res.Violations)
+		run.siteInv[site]++
+		run.checkArgs(site, s, nat, args, vargs, variadic)
+		if len(run.res.Violations) > before {
+			run.res.Violations[len(run.res.Violations)-1].KeyKind += "-after-reentry"
+			run.res.Violations[len(run.res.Violations)-1].Detail = "after the native re-entered the VM and the nested call returned: " + run.res.Violations[len(run.res.Violations)-1].Detail
 		}
 	}
 	for i := range run.p.Faults {
@@ -697,6 +738,7 @@ func (run *bRun) natives(vm *goatlang.VM) {
 		if err != nil {
 			if site >= 0 && site < len(run.p.Sites) && run.p.Sites[site].Handled {
 				run.handled = true
+				run.handledNow = true
 				run.h.C.Inc("fault_handled")
 				return goatlang.String("handled")
 			}
@@ -768,7 +810,7 @@ func (run *bRun) obs(site int, got []goatlang.Value) {
 			want = rv[:1]
 		}
 	case "reenter":
-		if run.handled && run.firedAt == s.Inner {
+		if run.handledNow && run.firedAt == s.Inner {
 			want = []BVal{{K: "string", S: "handled"}}
 		} else if r2 := run.lastRet[s.Inner]; len(r2) > 0 {
 			want = r2[:1]
@@ -816,10 +858,45 @@ func (boundary) Execute(plan any, keep bool) *core.Result {
 		res.Fail("HARNESS", "generator", "script", "the generated script does not load: %v\n%s", err, src)
 		return finish()
 	}
-	_, err := run.h.Call("main.work", 0)
+	rounds := p.Rounds
+	if rounds < 1 {
+		rounds = 1
+	}
 	out := "ok"
+	for round := 1; round <= rounds; round++ {
+		run.siteInv = map[int]int{}
+		run.handledNow = false
+		firedBefore := run.fired != nil
+		if round > 1 {
+			run.h.C.Inc(fmt.Sprintf("round_%d", round))
+		}
+		_, err := run.h.Call("main.work", 0)
+		out = run.judgeRound(err, firedBefore)
+	}
+	for i := range p.HostCalls {
+		run.hostCall(&p.HostCalls[i])
+	}
+	return run.wrapUp(p, out, finish)
+}
+
+func (run *bRun) wrapUp(p *BPlan, out string, finish func() *core.Result) *core.Result {
+	run.res.Abstract = fmt.Sprintf("%s|sites=%d|depth=%d|rounds=%d", out, len(p.Sites), run.h.MaxDepth, p.Rounds)
+	var ctxs []string
+	for _, k := range run.h.C.Keys() {
+		if strings.HasPrefix(k, "ctx_") || strings.HasPrefix(k, "form_") {
+			ctxs = append(ctxs, k)
+		}
+	}
+	run.res.Abstract += "|" + strings.Join(ctxs, ",")
+	return finish()
+}
+
+// judgeRound applies C19/error and C19/after to one call of work().
+func (run *bRun) judgeRound(err error, firedBefore bool) string {
+	out := "ok"
+	firedNow := run.fired != nil && !firedBefore
 	switch {
-	case run.fired != nil && !run.handled:
+	case firedNow && !run.handled:
 		out = "propagated"
 		run.h.C.Inc("fault_propagated")
 		if err == nil {
@@ -834,7 +911,7 @@ func (boundary) Execute(plan any, keep bool) *core.Result {
 		} else if run.firedG >= 0 && g[0].Int() != run.firedG {
 			run.fail("C19/after", "state-lost", "the script stored G = %d just before the failing native ran, after the failed call G is %d", run.firedG, g[0].Int())
 		}
-	case run.fired != nil && run.handled:
+	case firedNow && run.handled:
 		out = "handled"
 		if err != nil {
 			run.fail("C19/error", "handled-but-failed", "an intermediate native handled the nested error, but the outer Call still failed: %s", firstLine(err.Error()))
@@ -844,18 +921,7 @@ func (boundary) Execute(plan any, keep bool) *core.Result {
 			run.fail("C19/error", "spurious", "no fault was injected but work() failed: %s", firstLine(err.Error()))
 		}
 	}
-	for i := range p.HostCalls {
-		run.hostCall(&p.HostCalls[i])
-	}
-	res.Abstract = fmt.Sprintf("%s|sites=%d|depth=%d", out, len(p.Sites), run.h.MaxDepth)
-	var ctxs []string
-	for _, k := range run.h.C.Keys() {
-		if strings.HasPrefix(k, "ctx_") || strings.HasPrefix(k, "form_") {
-			ctxs = append(ctxs, k)
-		}
-	}
-	res.Abstract += "|" + strings.Join(ctxs, ",")
-	return finish()
+	return out
 }
 
 func (run *bRun) siteCtx(si int) string {
@@ -867,6 +933,10 @@ func (run *bRun) siteCtx(si int) string {
 
 // hostCall: Call/Func of script identity functions with host-built values.
 func (run *bRun) hostCall(hc *BHostCall) {
+	if hc.Fn == "swap" {
+		run.hostSwap(hc)
+		return
+	}
 	name := fmt.Sprintf("main.id%d_%d", hc.A, hc.B)
 	if hc.Fn == "typed" {
 		name = "main.typed"
@@ -916,6 +986,56 @@ func (run *bRun) hostCall(hc *BHostCall) {
 					return
 				}
 			}
+		}
+	}
+}
+
+// hostSwap: a function value fetched with Get keeps meaning the function it was fetched as,
+// also after the host registers something else under that name with Set.
+func (run *bRun) hostSwap(hc *BHostCall) {
+	name := fmt.Sprintf("main.id%d_%d", hc.A, hc.A)
+	if hc.A > 4 {
+		name = "main.id4_4"
+		hc = &BHostCall{Fn: "swap", A: 4, Params: hc.Params[:4]}
+	}
+	run.h.C.Inc("hostcall_swap")
+	old := run.h.VM.Get(name)
+	run.h.VM.Set(name, goatlang.NewFunc(hc.A, hc.A, func(v *goatlang.VM, a []goatlang.Value) []goatlang.Value {
+		out := make([]goatlang.Value, hc.A)
+		for i := range out {
+			out[i] = goatlang.String("replacement")
+		}
+		return out
+	}))
+	// a fresh parameter slice per call: Func builds its stack with append(params, fn), so a
+	// slice with spare capacity is written to (results land in the caller's backing array)
+	mk := func() []goatlang.Value {
+		ps := make([]goatlang.Value, 0, len(hc.Params))
+		for _, pi := range hc.Params {
+			ps = append(ps, bPool[pi].value())
+		}
+		return ps
+	}
+	r1, err1 := run.h.Func(old, hc.A, mk()...)
+	r2, err2 := run.h.Call(name, hc.A, mk()...)
+	run.h.VM.Set(name, old)
+	r3, err3 := run.h.Call(name, hc.A, mk()...)
+	if err1 != nil || err2 != nil || err3 != nil {
+		run.fail("C19/count", "swap-failed", "Get/Set/Func/Call sequence on %s failed: %v / %v / %v", name, err1, err2, err3)
+		return
+	}
+	for i := 0; i < hc.A; i++ {
+		if !bPool[hc.Params[i]].matches(r1[i]) {
+			run.fail("C19/count", "stale-handle", "Func on the script function fetched with Get(%q) before Set(%q, native) returned %s: it must still invoke the function it was fetched as, with the given parameter %s", name, name, describe(r1[i]), bPool[hc.Params[i]])
+			return
+		}
+		if r2[i].String() != "replacement" {
+			run.fail("C19/count", "set-ignored", "Call(%q) after Set(%q, native) did not invoke the native: %s", name, name, describe(r2[i]))
+			return
+		}
+		if !bPool[hc.Params[i]].matches(r3[i]) {
+			run.fail("C19/count", "restore", "after Set(%q, original) Call returned %s", name, describe(r3[i]))
+			return
 		}
 	}
 }
